@@ -41,7 +41,8 @@ def run(ck):
     cur_locals = []
     for n in cs.find(lambda n: n.get("k") == "decl"):
         for v in n.get("vars", []):
-            if isinstance(v.get("init"), dict) and any(is_call(x, ("size", "pos", "bytesAvailable")) for x in walk(v["init"])):
+            if isinstance(v.get("init"), dict) and any(is_call(x, ("size", "pos", "bytesAvailable")) and strip_tmpl(x.get("cls") or "") not in ("QByteArray", "QString", "QStringView", "QList", "QVector", "QStringList")
+                                                       for x in walk(v["init"])):
                 cur_locals.append((v, n))
 
     counter = {}
@@ -57,13 +58,25 @@ def run(ck):
             return True
         return is_call(n, ("QFileDevice::size", "QFile::size", "QIODevice::size")) and S.is_active_file(skip_copies(n).get("obj"))
 
-    adddecl = cs.params[0]["decl"]
+    # the size check either receives the added size as an integer (computed by its caller) or the message itself
+    by_message = not (cs.params and (cs.params[0].get("type") or "").replace("const ", "").strip() in ("int", "qint64", "long long", "long", "qsizetype", "unsigned int", "size_t"))
+    adddecl = cs.params[0]["decl"] if cs.params else None
+
+    def enc_len(n, fn):
+        """encoded length of the record: <fn's message parameter>.formattedMessage().toUtf8().size()"""
+        if is_call(n, ("QByteArray::size", "QByteArray::length", "QByteArray::count")):
+            o = skip_copies(skip_copies(n).get("obj"))
+            if is_call(o, ("QString::toUtf8", "QString::toLocal8Bit")) and is_call(o.get("obj"), LM + "::formattedMessage") and obj_is_param(skip_copies(o["obj"]), fn, 0):
+                return True
+        return False
 
     def sym(n):
         if is_cur(n):
             return "cur"
-        if is_ref_to(n, adddecl):
+        if not by_message and is_ref_to(n, adddecl):
             return "add"
+        if by_message and enc_len(n, cs):
+            return "len"
         if is_this_field(n, LF):
             return "L"
         return None
@@ -91,12 +104,13 @@ def run(ck):
     arg = deref_local(ri, calls[0]["args"][0])
 
     def lensym(n):
-        if is_call(n, ("QByteArray::size", "QByteArray::length", "QByteArray::count")):
-            o = skip_copies(skip_copies(n).get("obj"))
-            if is_call(o, ("QString::toUtf8", "QString::toLocal8Bit")) and is_call(o.get("obj"), LM + "::formattedMessage") and obj_is_param(skip_copies(o["obj"]), ri, 0):
-                return "len"
-        return None
-    lf = linear(arg, lensym)
+        return "len" if enc_len(n, ri) else None
+    if by_message:
+        okm = is_ref_to(arg, ri.params[0]["decl"])
+        ck.ob("C07-O1", sitestr(ri, calls[0]), okm, "the size check is given the record that is about to be written" if okm else "the size check is given %s" % describe(arg), key="rotateIfNeeded|added-size-source")
+        lf = {"len": 1, "": 0}
+    else:
+        lf = linear(arg, lensym)
     if lf is None or lf.get("len") != 1 or set(lf) - {"len", ""}:
         chars = any(is_call(x, ("QString::size", "QString::length")) for x in walk(arg))
         ck.ob("C07-O1", sitestr(ri, calls[0]), False if chars else None, "the added size is %s%s" % (describe(arg), ": UTF-16 code units, not bytes" if chars else ""), key="rotateIfNeeded|added-size-source")
@@ -108,9 +122,9 @@ def run(ck):
     n = 0
     for cur, ln, L in itertools.product(range(0, 8), range(0, 7), range(1, 11)):
         add = ln + c
-        def leaf(x, cur=cur, add=add, L=L):
+        def leaf(x, cur=cur, add=add, L=L, ln=ln):
             s = sym(x)
-            return {"cur": cur, "add": add, "L": L}.get(s) if s else None
+            return {"cur": cur, "add": add, "len": ln, "L": L}.get(s) if s else None
         leaf.fn = cs
         live = rsite in g.live(g.projector(numeric_atom(cs, leaf)))
         need = cur >= 1 and cur + ln + 1 > L
